@@ -972,7 +972,8 @@ func (r *runner) judge(tag string, f *inflight) error {
 		}
 		return nil
 	}
-	stale := r.reconfs > 0 && id != "" && r.preReconf[id]
+	// An identifier that the request itself names in its DoH path is not stale.
+	stale := r.reconfs > 0 && id != "" && r.preReconf[id] && ref.idFromPath != id
 	switch {
 	case stale:
 		return fail("stale-clientid-after-reconfigure", "attributed to %q, an identifier that only requests handled before the latest reconfiguration carried", id)
